@@ -101,6 +101,13 @@ class Monitor:
             elif w[0] == "unpack":
                 if int(o[1]) != int(w[1]):
                     return "key %s decodes to %s which encodes back to %s" % (w[1], o[0], o[1])
+            elif w[0] == "incver":
+                t = tuple(int(x) for x in w[1:4])
+                got = tuple(int(x) for x in out.split("."))
+                if got[0] != t[0]:
+                    return "increment_version%s = %s: the next generation of slot %d belongs to slot %d" % (t, out, t[0], got[0])
+                if got[1] != (t[1] + 1) % (MAXV + 1):
+                    return "increment_version%s = %s: generation %d is followed by %d" % (t, out, t[1], got[1])
             elif w[0] == "incsub":
                 t = tuple(int(x) for x in w[1:4])
                 if t[2] >= MAXS:
